@@ -5,6 +5,7 @@ CONSTANT Vals <- V01
 CONSTANT D = 1
 CONSTANT Fns <- FnsUndBin6
 INVARIANT RefinesDefinition
+INVARIANT NbrEnumerationEqualsDefinition
 INVARIANT PrefixInv
 INVARIANT InUnitInterval
 INVARIANT ZeroWhenNoTriangleOrDegLT2
